@@ -230,7 +230,28 @@ func (run *checkRun) adaptLoopContracts(eng *Engine, gen map[string]*FuncSpec, t
 						o.Result = SolverResult{Status: "skipped", Solver: "not-part-of-property"}
 					}
 				}
+				// cheap filter first: the adapted invariants must at least
+				// be established
+				est := &FuncResult{Key: nr.Key, Ctx: nr.Ctx}
+				for _, o := range nr.Obligations {
+					if o.Result.Status == "" && strings.Contains(o.Name, "/inv_established/") {
+						est.Obligations = append(est.Obligations, o)
+					}
+				}
+				discharge([]*FuncResult{est}, dischargeOpts{timeoutS: 6, workers: 12})
+				estOK := true
+				for _, o := range est.Obligations {
+					if o.Result.Status != "unsat" {
+						estOK = false
+					}
+				}
+				if !estOK {
+					continue
+				}
+				cover := nr.Cover
+				nr.Cover = nil
 				discharge([]*FuncResult{nr}, dischargeOpts{timeoutS: timeoutS, workers: 12})
+				nr.Cover = cover
 				ok := true
 				for _, o := range nr.Obligations {
 					if run.counts(nr, o) && o.Result.Status != "unsat" {
